@@ -68,8 +68,8 @@ func (exp *MapExp) resolveRefs(self, siblings map[string]*ResolvedBinding,
 		Kind:   exp.Kind,
 		Value:  make(map[string]Exp, len(exp.Value)),
 	}
-	for i, subexp := range exp.Value {
-		e, err := subexp.resolveRefs(self, siblings, lookup)
+	for _, i := range sortedKeys(exp.Value) {
+		e, err := exp.Value[i].resolveRefs(self, siblings, lookup)
 		if err != nil {
 			errs = append(errs, &bindingError{
 				Msg: "key " + i,
@@ -184,7 +184,8 @@ func (s *MapExp) BindingPath(bindPath string,
 		Value:  make(map[string]Exp, len(s.Value)),
 	}
 	var errs ErrorList
-	for i, sub := range s.Value {
+	for _, i := range sortedKeys(s.Value) {
+		sub := s.Value[i]
 		e, err := sub.BindingPath(bindPath, forks, lookup)
 		if err != nil {
 			errs = append(errs, &wrapError{
@@ -416,7 +417,8 @@ func (s *MapExp) filter(t Type, lookup *TypeLookup) (Exp, error) {
 	}
 	anyChange := false
 	var errs ErrorList
-	for i, sub := range s.Value {
+	for _, i := range sortedKeys(s.Value) {
+		sub := s.Value[i]
 		e, err := sub.filter(t, lookup)
 		if err != nil {
 			errs = append(errs, &wrapError{
